@@ -7,7 +7,7 @@ CFG = {
     "fs_shim": True,
     "gates": [
         {"files": ["banyand/measure/tstable.go", "banyand/measure/snapshot.go", "banyand/measure/introducer.go", "banyand/measure/flusher.go", "banyand/measure/merger.go",
-                   "banyand/measure/gc.go", "banyand/measure/part.go", "banyand/measure/query.go",
+                   "banyand/measure/gc.go", "banyand/measure/part.go", "banyand/measure/query.go", "banyand/measure/query_batch.go",
                    "banyand/stream/tstable.go", "banyand/stream/snapshot.go", "banyand/stream/introducer.go", "banyand/stream/flusher.go", "banyand/stream/merger.go",
                    "banyand/stream/gc.go", "banyand/stream/part.go", "banyand/stream/query.go",
                    "pkg/run/goroutine.go", "pkg/timestamp/scheduler.go"], "mode": "A"},
@@ -16,7 +16,7 @@ CFG = {
     "level_text": "TBD",
     "level_note": "TBD",
     "budget": {"quick": 60, "thorough": 1200},
-    "det_n": {"quick": 24, "thorough": 64},
+    "det_n": {"quick": 64, "thorough": 128},
     "rule": "TBD",
     "expected_probes": [],
     "real_vs_stub": {"real": [], "stub": []},
